@@ -146,6 +146,19 @@ pub fn run(args: &Args) -> Report {
             cases.push(Case { try_unbounded: false, max_k: 1, label, exec: Box::new(move |r| xfer::exec(&cfg, &or, r)) });
         }
     }
+    // single writes, plain and vectored, longer than one frame may carry (512 KiB): each successful call, short or not,
+    // is one frame and one unit of credit
+    for (a, b) in [((2u32, 1u32), (1u32, 1u32)), ((3, 3), (2, 1))] {
+        let streams = vec![StreamSpec {
+            tag: 1,
+            opener: 0,
+            opener_plan: EndPlan::Split(vec![Op::WV(vec![300_000, 300_000, 300_000]), Op::W(700_000), Op::WV(vec![0, 524_288, 1]), Op::W(1), Op::Shutdown], vec![Op::ReadToEof(65_536)]),
+            acceptor_plan: EndPlan::Split(vec![Op::W(524_289), Op::WV(vec![524_287, 0, 2, 5]), Op::Shutdown], vec![Op::ReadToEof(100_000)]),
+        }];
+        let cfg = XferCfg { a, b, cap: 0, streams, stream_buffer: 4, one_byte_frames: false, dgram_pingpong: 0, dgram_buffer: 4, drop_mux_when_writers_done: None, extra: xfer::XferExtra::NONE, horizon: 8000 };
+        let label = format!("single plain and vectored writes longer than a frame | {}", cfg.describe());
+        cases.push(Case { try_unbounded: false, max_k: 1, label, exec: Box::new(move |r| xfer::exec(&cfg, &or, r)) });
+    }
     // a bridged end (MuxStream::into_copy_bidirectional, the path the penguin binaries use) whose local side has far more
     // than one frame's worth of data ready at once: still one unit of credit per frame on the wire
     for (a, b) in [((2u32, 1u32), (1u32, 1u32)), ((1, 1), (3, 2))] {
